@@ -25,7 +25,7 @@
    SIGNS.  ids are passed with the sign of their kind (gop_ok): DbImpl resolves every id through
    db_id / graph_index, which dispatch on the sign.  The raw GraphImpl functions look only at |id|
    (C08_raw_negative_endpoint_witness shows why the restriction is needed). *)
-From Agdb Require Import Bytes Graph GraphArr GraphSim GraphProofs GraphRemove GraphSpec GraphWf GraphC08.
+From Agdb Require Import Bytes DbValue Graph DbModel GraphArr GraphSim GraphProofs GraphRemove GraphSpec GraphWf GraphC08 DbCascadeProofs.
 From Coq Require Import Sorted Permutation.
 Open Scope Z_scope.
 
@@ -264,6 +264,90 @@ Theorem C08_wf_edge_ends :
     0 < edge_to g e /\ is_node g (edge_to g e) = true.
 Proof. exact wf_edge_ends. Qed.
 Print Assumptions C08_wf_edge_ends.
+
+(* ---- DbImpl level: the cascade of remove (theories/DbModel.v remove_id / remove_q / remove_node_db) ----
+   `remove_id d id` is DbImpl::remove_id: a node is removed with its alias, every edge listed by node_edges
+   (out-list, then in-list without self-loops) is removed one by one with its values, then the node and its
+   values.  On a well-formed graph it never fails (no EFuel, no NotFound) and afterwards the node and every
+   incident edge are no longer elements, their key-value lists are empty, the node's alias does not resolve,
+   no element appeared, and the node count dropped by one. *)
+
+Theorem C08_db_cascade :
+  forall (d : db) (n : Z),
+    wf (gr d) -> 0 < n -> graph_index (gr d) n = true ->
+    exists d',
+      remove_id d n = (d', ROk true) /\
+      wf (gr d') /\
+      graph_index (gr d') n = false /\ kvs_get (vals d') n = [] /\
+      (forall e, In e (out_edges (gr d) n) \/ In e (in_edges (gr d) n) ->
+         graph_index (gr d') e = false /\ kvs_get (vals d') e = []) /\
+      (forall al, imap_key (aliases d) n = Some al -> imap_value (aliases d') al = None) /\
+      (forall i, graph_index (gr d') i = true -> graph_index (gr d) i = true) /\
+      node_count (gr d') = node_count (gr d) - 1.
+Proof. exact remove_id_node_cascade. Qed.
+Print Assumptions C08_db_cascade.
+
+(* the same through the alias (remove_q (QAlias a)): afterwards the alias does not resolve *)
+Theorem C08_db_cascade_alias :
+  forall (d : db) (a : bytes) (n : Z),
+    wf (gr d) -> imap_value (aliases d) a = Some n -> 0 < n -> graph_index (gr d) n = true ->
+    exists d',
+      remove_q d (QAlias a) = (d', ROk true) /\
+      wf (gr d') /\
+      graph_index (gr d') n = false /\ kvs_get (vals d') n = [] /\
+      (forall e, In e (out_edges (gr d) n) \/ In e (in_edges (gr d) n) ->
+         graph_index (gr d') e = false /\ kvs_get (vals d') e = []) /\
+      imap_value (aliases d') a = None /\
+      (forall i, graph_index (gr d') i = true -> graph_index (gr d) i = true) /\
+      node_count (gr d') = node_count (gr d) - 1.
+Proof. exact remove_alias_node_cascade. Qed.
+Print Assumptions C08_db_cascade_alias.
+
+(* removing an edge: exactly that element disappears, with its values *)
+Theorem C08_db_cascade_edge :
+  forall (d : db) (e : Z),
+    wf (gr d) -> e < 0 -> graph_index (gr d) e = true ->
+    exists d',
+      remove_id d e = (d', ROk true) /\
+      wf (gr d') /\
+      graph_index (gr d') e = false /\ kvs_get (vals d') e = [] /\
+      (forall i, graph_index (gr d') i = true <-> graph_index (gr d) i = true /\ i <> e) /\
+      node_count (gr d') = node_count (gr d).
+Proof. exact remove_id_edge_cascade. Qed.
+Print Assumptions C08_db_cascade_edge.
+
+(* remove_id never fails on a well-formed graph, whatever the id; DbImpl's graph mutations keep wf *)
+Theorem C08_db_remove_total :
+  forall (d : db) (id : Z),
+    wf (gr d) -> exists d' b, remove_id d id = (d', ROk b) /\ wf (gr d') /\ graph_index (gr d') id = false.
+Proof. exact remove_id_total. Qed.
+Print Assumptions C08_db_remove_total.
+
+Theorem C08_db_mutations_wf :
+  forall d : db, wf (gr d) ->
+    wf (gr (snd (insert_node_db d))) /\
+    (forall f t i d', 0 <= f -> 0 <= t -> insert_edge_db d f t = ROk (i, d') -> wf (gr d')) /\
+    (forall id, wf (gr (fst (remove_id d id)))).
+Proof. exact db_mutations_wf. Qed.
+Print Assumptions C08_db_mutations_wf.
+
+(* nodes 1 2 3 (1 aliased "a"), edges 1->2 (-4), 2->1 (-5), 1->1 (-6), 2->3 (-7), values on node 1 and on
+   edges -4 -6 -7; removing node 1 removes -4 -5 -6, their values and the alias; 2, 3, -7 and its value stay *)
+Example C08_db_cascade_nonvacuous :
+  elements (gr ex_db) = [1; 2; 3; -4; -5; -6; -7] /\
+  imap_value (aliases ex_db) [x61] = Some 1 /\
+  out_edges (gr ex_db) 1 = [-6; -4] /\ in_edges (gr ex_db) 1 = [-6; -5] /\
+  match remove_id ex_db 1 with
+  | (d', ROk true) =>
+      elements (gr d') = [2; 3; -7] /\ node_count (gr d') = 2 /\
+      imap_value (aliases d') [x61] = None /\
+      kvs_get (vals d') 1 = [] /\ kvs_get (vals d') (-4) = [] /\ kvs_get (vals d') (-6) = [] /\
+      kvs_get (vals d') (-7) = [(DI64 7, DI64 70)] /\
+      out_edges (gr d') 2 = [-7] /\ in_edges (gr d') 2 = []
+  | _ => False
+  end.
+Proof. exact ex_cascade. Qed.
+Print Assumptions C08_db_cascade_nonvacuous.
 
 (* ---- non-vacuity and the sign witness ---- *)
 
